@@ -81,11 +81,11 @@ def draw_payload_edit(draw, mod, tname, depth):
         n = len(getattr(mod, a).values)
         if whole:
             return ["arr_whole", a, draw(st.lists(u16 if a == "np_curve" else u8, min_size=n, max_size=n))]
-        return ["arr", a, draw(st.integers(0, n - 1)), draw(u16 if a == "np_curve" else u8)]
+        return [draw(st.sampled_from(["arr", "arr", "arr_rebound"])), a, draw(st.integers(0, n - 1)), draw(u16 if a == "np_curve" else u8)]
     if tname == "WaveShaper":
         if whole:
             return ["arr_whole", "curve", draw(st.lists(u16, min_size=256, max_size=256))]
-        return ["arr", "curve", draw(st.integers(0, 255)), draw(u16)]
+        return [draw(st.sampled_from(["arr", "arr", "arr_rebound"])), "curve", draw(st.integers(0, 255)), draw(u16)]
     if tname == "MultiCtl":
         if whole:
             return ["arr_whole", "curve", draw(st.lists(vs.edge_int(0, 0x8000), min_size=257, max_size=257))]
@@ -95,6 +95,10 @@ def draw_payload_edit(draw, mod, tname, depth):
     if tname == "SpectraVoice":
         f = draw(st.sampled_from(["freq_hz", "volume", "width", "type"]))
         v = draw(u16 if f == "freq_hz" else st.integers(0, 18) if f == "type" else u8)
+        if draw(st.integers(0, 2)) == 0:
+            # the table object itself is replaced first (a copy of it, as when a table is taken over
+            # from another module), then one harmonic is set through the per-harmonic view
+            return ["harm_rebound", draw(st.integers(0, 15)), f, v]
         return ["harm", draw(st.integers(0, 15)), f, v]
     if tname == "Fmx":
         return ["arr", "custom_waveform", draw(st.integers(0, 255)), draw(build.f32)]
@@ -322,6 +326,11 @@ def apply_module_edit(mod, e):
             getattr(mod, e[2]).values[e[3]] = e[4]
         elif s == "arr_whole":
             getattr(mod, e[2]).values = list(e[3])
+        elif s == "arr_rebound":
+            import copy
+
+            setattr(mod, e[2], copy.deepcopy(getattr(mod, e[2])))
+            getattr(mod, e[2]).values[e[3]] = e[4]
         elif s == "s_env_whole":
             old = envelope_of(mod, e[2])
             new = type(old)(old.chnm) if e[2].startswith("fx") else type(old)()
@@ -339,7 +348,12 @@ def apply_module_edit(mod, e):
             mod.effect_control_envelopes = news
         elif s == "mcmap":
             setattr(mod.mappings.values[e[2]], e[3], e[4])
-        elif s == "harm":
+        elif s in ("harm", "harm_rebound"):
+            if s == "harm_rebound":
+                import copy
+
+                attr = {"freq_hz": "harmonic_freqs", "volume": "harmonic_volumes", "width": "harmonic_widths", "type": "harmonic_types"}[e[3]]
+                setattr(mod, attr, copy.deepcopy(getattr(mod, attr)))
             v = cls.HarmonicType(e[4]) if e[3] == "type" else e[4]
             setattr(mod.harmonics[e[2]], e[3], v)
         elif s == "wave":
@@ -483,7 +497,7 @@ def module_paths(mod, e, base):
     if s == "mcmap":
         idx = ["min", "max", "controller", "flags", "future_use2", "future_use3", "future_use4", "future_use5"].index(e[3])
         return "%s/mappings/%d/%d" % (pb, e[2], idx), e[4], []
-    if s == "harm":
+    if s in ("harm", "harm_rebound"):
         col = {"freq_hz": ("harmonic_freqs", 0), "volume": ("harmonic_volumes", 1), "width": ("harmonic_widths", 2), "type": ("harmonic_types", 3)}[e[3]]
         return "%s/%s/%d" % (pb, col[0], e[2]), e[4], ["%s/harmonics/%d/%d" % (pb, e[2], col[1])]
     if s == "wave":
@@ -504,6 +518,8 @@ def module_paths(mod, e, base):
     envkey = lambda w: {"volume": "volume_envelope", "panning": "panning_envelope", "pitch": "pitch_envelope"}.get(w) or "effect_control_envelopes/%s" % w[2]  # noqa: E731
     if s == "arr_whole":
         return "%s/%s" % (pb, e[2]), list(e[3]), []
+    if s == "arr_rebound":
+        return "%s/%s/%d" % (pb, e[2], e[3]), e[4], []
     if s == "s_env_whole":
         return "%s/%s" % (pb, envkey(e[2])), NOCHECK, []
     if s == "s_ece_list_whole":
